@@ -192,7 +192,18 @@ impl<'a> ProgGen<'a> {
                                 kind: if self.g.chance(0.5) { ExtractorKind::ValueOf } else { ExtractorKind::IdLens },
                             }
                         })
-                        .collect(),
+                        .collect::<Vec<Rule>>()
+                        .into_iter()
+                        .fold(Vec::new(), |mut acc: Vec<Rule>, mut r| {
+                            // sometimes several extractors share one trigger (added with `with_many`)
+                            if let Some(prev) = acc.last() {
+                                if (r.t as usize + acc.len()) % 3 == 0 {
+                                    r.trigger = prev.trigger.clone();
+                                }
+                            }
+                            acc.push(r);
+                            acc
+                        }),
                 )
             } else {
                 None
